@@ -193,7 +193,7 @@ let print_event (b : Buffer.t) (e : event) : unit =
 
 let err_name = function
   | ErrUAF -> "UAF" | ErrDangling -> "DANGLING" | ErrDoubleErase -> "DOUBLE-ERASE"
-  | ErrFuel -> "FUEL" | ErrUnsupported -> "UNSUPPORTED"
+  | ErrLoop -> "LOOP" | ErrFuel -> "FUEL" | ErrUnsupported -> "UNSUPPORTED"
 
 let run_sig (fuel : int) (line : string) : string =
   let p = parse_sig line in
